@@ -243,8 +243,62 @@ func (r *c39Run) deliverValid(blk *types.Block, headersFirst bool) {
 	}
 	msg, err := c39Wire(blk, cc, root)
 	c.Must(err, "valid block does not survive the codec")
-	if err := r.B.Store.AddBlock(msg.Blk, msg.CCMsg, msg.MerkleRoot); err != nil {
-		c.Fail("valid-block-refused", "sync", "receiver refuses the unaltered block %d: %v", h, err)
+	var aerr error
+	switch mode := r.t.Pick(8, 1, 1); mode {
+	case 1:
+		// the receiver dies at a tape-chosen disk call inside AddBlock, is restarted and gets the block again if it lost it
+		world.Quiesce()
+		r.B.Disk.ArmCrash(1+r.t.Choose(14), r.t.Choose(3)*100)
+		aerr = r.B.Store.AddBlock(msg.Blk, msg.CCMsg, msg.MerkleRoot)
+		if r.B.Disk.Crashed() {
+			c.Fault("receiver_crash_in_commit")
+			c.Logf("CRASH of the receiver inside AddBlock(%d) at %s", h, r.B.Disk.CrashInfo)
+			c40CloseCrashed(r.B)
+			world.Quiesce()
+			r.B.Disk.Restart()
+			if oerr := r.B.Open(); oerr != nil {
+				c.Fail("reopen-fails", "crash-in-commit", "receiver cannot reopen after a crash inside AddBlock(%d): %v", h, oerr)
+			}
+			world.Quiesce()
+			aerr = nil
+			if r.B.Height() < h {
+				msg2, err := c39Wire(blk, cc, root)
+				c.Must(err, "valid block does not survive the codec")
+				aerr = r.B.Store.AddBlock(msg2.Blk, msg2.CCMsg, msg2.MerkleRoot)
+			}
+		} else {
+			r.B.Disk.Disarm()
+		}
+	case 2:
+		// the block reaches the receiver twice at once: the second AddBlock starts while the first is stopped before a disk call
+		world.Quiesce()
+		reached, resume := r.B.Disk.ArmPause(1 + r.t.Choose(12))
+		e1, e2 := make(chan error, 1), make(chan error, 1)
+		go func() { e1 <- r.B.Store.AddBlock(msg.Blk, msg.CCMsg, msg.MerkleRoot) }()
+		world.Quiesce()
+		second := false
+		select {
+		case <-reached:
+			second = true
+			c.Fault("block_delivered_twice_concurrently")
+			msg2, err := c39Wire(blk, cc, root)
+			c.Must(err, "valid block does not survive the codec")
+			go func() { e2 <- r.B.Store.AddBlock(msg2.Blk, msg2.CCMsg, msg2.MerkleRoot) }()
+			world.Quiesce()
+		default:
+		}
+		resume()
+		aerr = <-e1
+		if second {
+			if err2 := <-e2; aerr == nil {
+				aerr = err2
+			}
+		}
+	default:
+		aerr = r.B.Store.AddBlock(msg.Blk, msg.CCMsg, msg.MerkleRoot)
+	}
+	if aerr != nil {
+		c.Fail("valid-block-refused", "sync", "receiver refuses the unaltered block %d: %v", h, aerr)
 	}
 	world.Quiesce()
 	if got := r.B.Height(); got != h {
